@@ -1026,8 +1026,24 @@ package xpath
 //@   ensures[depth-restored@C06] err == nil ==> b.parseDepth == old(b.parseDepth)
 //@   preserves heap(F:*Node.*), heap(S:query)      // the builder never writes the parse tree nor argument lists it did not create
 //@   ensures[wf@C15] built(q, err)
+// Which query an axis step is built into (C01: each axis gets its own walker; C12: "//name" is the
+// plain descendant walk, never descendant-or-self).
+//@ define slashSlash(root) = root.Input != nil && is(root.Input, *axisNode) && as(root.Input, *axisNode).AxisType == "descendant-or-self" && as(root.Input, *axisNode).typeTest == allNode && as(root.Input, *axisNode).LocalName == "" && as(root.Input, *axisNode).Prefix == ""
+//@ define isDesc(q, self) = is(q, *descendantQuery) && as(q, *descendantQuery).Self == self || is(q, *descendantOverDescendantQuery) && as(q, *descendantOverDescendantQuery).MatchSelf == self
 //@ func (*builder).processAxis
-//@   props C15 C06 C17
+//@   props C15 C06 C17 C01 C12
+//@   ensures[ancestor@C01] result1 == nil && root.AxisType == "ancestor" ==> is(result0, *ancestorQuery) && !as(result0, *ancestorQuery).Self && as(result0, *ancestorQuery).Predicate == predicate
+//@   ensures[ancestor-or-self@C01] result1 == nil && root.AxisType == "ancestor-or-self" ==> is(result0, *ancestorQuery) && as(result0, *ancestorQuery).Self && as(result0, *ancestorQuery).Predicate == predicate
+//@   ensures[attribute@C01] result1 == nil && root.AxisType == "attribute" ==> is(result0, *attributeQuery) && as(result0, *attributeQuery).Predicate == predicate
+//@   ensures[child@C01,C12] result1 == nil && root.AxisType == "child" ==> is(result0, *childQuery) && as(result0, *childQuery).Predicate == predicate || is(result0, *cachedChildQuery) && as(result0, *cachedChildQuery).Predicate == predicate || slashSlash(root) && is(result0, *descendantQuery) && !as(result0, *descendantQuery).Self && as(result0, *descendantQuery).Predicate == predicate
+//@   ensures[descendant@C01,C12] result1 == nil && root.AxisType == "descendant" ==> isDesc(result0, false)
+//@   ensures[descendant-or-self@C01,C12] result1 == nil && root.AxisType == "descendant-or-self" ==> isDesc(result0, true)
+//@   ensures[following@C01] result1 == nil && root.AxisType == "following" ==> is(result0, *followingQuery) && !as(result0, *followingQuery).Sibling && as(result0, *followingQuery).Predicate == predicate
+//@   ensures[following-sibling@C01] result1 == nil && root.AxisType == "following-sibling" ==> is(result0, *followingQuery) && as(result0, *followingQuery).Sibling && as(result0, *followingQuery).Predicate == predicate
+//@   ensures[preceding@C01] result1 == nil && root.AxisType == "preceding" ==> is(result0, *precedingQuery) && !as(result0, *precedingQuery).Sibling && as(result0, *precedingQuery).Predicate == predicate
+//@   ensures[preceding-sibling@C01] result1 == nil && root.AxisType == "preceding-sibling" ==> is(result0, *precedingQuery) && as(result0, *precedingQuery).Sibling && as(result0, *precedingQuery).Predicate == predicate
+//@   ensures[parent@C01] result1 == nil && root.AxisType == "parent" ==> is(result0, *parentQuery) && as(result0, *parentQuery).Predicate == predicate
+//@   ensures[self@C01] result1 == nil && root.AxisType == "self" ==> is(result0, *selfQuery) && as(result0, *selfQuery).Predicate == predicate
 //@   requires[depth@C06] 0 <= b.parseDepth && b.parseDepth <= 1024
 //@   maypanic
 //@   decreases 1024 - b.parseDepth, 1
